@@ -13,7 +13,10 @@ import (
 )
 
 // leakBox is created per rule execution and kept in a local.
-type leakBox struct{ v int64 }
+type leakBox struct {
+	v int64
+	W int64 // read as lbx.W: a dotted name headed by a local
+}
 
 func (b *leakBox) Put(d int64) { b.v += d }
 func (b *leakBox) Get() int64  { return b.v }
@@ -113,6 +116,10 @@ rule "boxb" salience -16 begin
   lbx = mkbox(2)
   lbx.Put(20)
   probe10(lbx.Get(), 22)
+  probe10(lbx.W, 2)
+end
+rule "boxc" salience -17 begin
+  probe4(lbx.W)
 end
 rule "nest" salience -13 begin
   forRange b1 := Shared.Tags2 {
@@ -203,7 +210,7 @@ end
 			seen10.Store(fmt.Sprintf("got %d, the rule's own object gives %d", got, want))
 		}
 	}
-	apis := map[string]interface{}{"probe10": probe10, "mkbox": func(v int64) *leakBox { return &leakBox{v: v} }, "probe9": probe9, "probe8": probe8, "probe6": probe6, "Cur": cur, "probe4": probe4, "probe5": probe5,
+	apis := map[string]interface{}{"probe10": probe10, "mkbox": func(v int64) *leakBox { return &leakBox{v: v, W: v} }, "probe9": probe9, "probe8": probe8, "probe6": probe6, "Cur": cur, "probe4": probe4, "probe5": probe5,
 		"pickdouble": func() func(int64) int64 { return func(x int64) int64 { return 2 * x } },
 		"picktriple": func() func(int64) int64 { return func(x int64) int64 { return 3 * x } },
 		"once":       once, "probe": probe, "hold": hold, "probe2": probe2, "probe3": probe3, "Shared": shared,
